@@ -1,13 +1,23 @@
-From Asherah Require Import Base.Str Format.Base64 Format.Json.
+From Asherah Require Import Base.Str Format.Base64 Format.Json Format.JsonParse.
 From Coq Require Import List NArith ZArith Bool.
 Import ListNotations.
 
 Inductive fcase := FEkr (r : jekr) (observed : str) | FDrr (d : jdrr) (observed : str).
 
+Fixpoint ns_eqb (a b : list N) : bool :=
+  match a, b with [], [] => true | x :: a', y :: b' => (x =? y)%N && ns_eqb a' b' | _, _ => false end.
+Definition meta_eqb (a b : jmeta) : bool := str_eqb (jm_id a) (jm_id b) && (jm_created a =? jm_created b)%Z.
+Definition opt_eqb {A} (f : A -> A -> bool) (a b : option A) : bool :=
+  match a, b with Some x, Some y => f x y | None, None => true | _, _ => false end.
+Definition ekr_eqb (a b : jekr) : bool :=
+  Bool.eqb (je_revoked a) (je_revoked b) && (je_created a =? je_created b)%Z && ns_eqb (je_key a) (je_key b) && opt_eqb meta_eqb (je_parent a) (je_parent b).
+Definition drr_eqb (a b : jdrr) : bool := opt_eqb ekr_eqb (jd_key a) (jd_key b) && opt_eqb ns_eqb (jd_data a) (jd_data b).
+
+(* the SDK's bytes are the documented-shape printer's bytes, and the documented-shape reader recovers the record from them *)
 Definition agree (c : fcase) : bool :=
   match c with
-  | FEkr r o => str_eqb (print_ekr r) o
-  | FDrr d o => str_eqb (print_drr d) o
+  | FEkr r o => str_eqb (print_ekr r) o && match read_ekr o with Some r' => ekr_eqb r r' | None => false end
+  | FDrr d o => str_eqb (print_drr d) o && match read_drr o with Some d' => drr_eqb d d' | None => false end
   end.
 
 Fixpoint mismatches_from (i : nat) (cs : list fcase) : list nat :=
